@@ -11,8 +11,8 @@
    oracles for ValidateBlock / ApplyBlock (C06), [pk_addr] an arbitrary PubKey.Address.
    Every poolRoutine turn that stores a block logs [E_saved st first second] (the state it had,
    the block stored, the block whose LastCommit was stored as seen commit). *)
-From Coq Require Import List ZArith NArith Bool.
-From TM Require Import Generated.Consts C07.Model C07.Proofs C13.Model C13.Proofs.
+From Coq Require Import List ZArith NArith Bool Lia.
+From TM Require Import Generated.Consts C07.Model C07.Proofs C13.Model C13.Proofs C13.ProofsPool C13.ProofsSync C13.ProofsCount.
 Import ListNotations.
 Open Scope Z_scope.
 
@@ -204,4 +204,548 @@ Proof.
     + unfold addrs_ok. cbn [combine ex_vals]. repeat (constructor; [right; reflexivity|]). constructor.
   - eexists. eexists. split; [vm_compute; reflexivity|]. split; [vm_compute; reflexivity|].
     split; [reflexivity | discriminate].
+Qed.
+
+
+(* =================================================================================================
+   Clauses 3, 6, 9, 10 and 8: the peer machinery (ProofsPool.v, ProofsSync.v).
+
+   [node_ok sig sent n] is the well-formedness of the pool inside the node: every block a
+   requester holds is a block of the requester's height; a requester holds a block only if it is
+   assigned to a peer (clause 9); it is assigned only to peers the pool knows; the pool knows no
+   stopped peer and not the empty id; and [sent p b] holds of every held block b and the peer p
+   its requester is assigned to, where [sent] is ANY relation that holds of all the block
+   responses fed to the node ([op_sent]) — e.g. [fun _ _ => True], or "p is honest -> b is the
+   canonical block".  bpRequester.redo is immediate in the model (the real code posts it to the
+   requester's goroutine: clause 10, proposed repair F32); the model has no operation that
+   re-admits a stopped peer (in the real node: a new connection, Reactor.AddPeer).
+   ================================================================================================= *)
+
+(* The pool invariant holds after ANY operation list from any well-formed node (the fresh node
+   is one: Example below), so the turn theorems below apply in every reachable state. *)
+Theorem C13_pool_wellformed_always :
+  forall (sig : Type)
+         (validate_block : sstate -> block sig -> bool)
+         (apply_block : sstate -> block sig -> option (list validator * Z))
+         (sent : peer -> block sig -> Prop) (vc : vcheck sig)
+         (ops : list (op sig)) (n : node sig),
+    Forall (op_sent sig sent) ops -> node_ok sig sent n ->
+    node_ok sig sent (run validate_block apply_block vc ops n).
+Proof. intros sig vb ab sent vc ops n Hs H. exact (run_ok sig vb ab sent vc ops n Hs H). Qed.
+Print Assumptions C13_pool_wellformed_always.
+
+(* ---- clauses 3 and 6, one processing turn.  In EVERY well-formed node, a processing turn whose
+   pair (first, second) fails the acceptance rule (the commit check of first with
+   second.LastCommit, or ValidateBlock): the pair is the pair of heights pool.height,
+   pool.height+1, supplied by peers p1, p2 that are known and not stopped; the turn stores
+   nothing, executes nothing, keeps pool.height and every requester slot, does not panic; stops
+   exactly p1 and p2 (one peer when it supplied both); afterwards neither is known to the pool
+   nor owns any requester; the requesters of both heights exist again, unassigned and empty
+   (= requested again as soon as a peer is picked; the pick can only return a peer that is not
+   stopped: C13_stopped_peer_is_ignored); requesters of other peers are untouched; the
+   rejection is logged; the node stays well-formed. *)
+Theorem C13_bad_response_drops_peer_and_retries :
+  forall (sig : Type)
+         (validate_block : sstate -> block sig -> bool)
+         (apply_block : sstate -> block sig -> option (list validator * Z))
+         (sent : peer -> block sig -> Prop) (vc : vcheck sig)
+         (n : node sig) (first second : block sig),
+    node_ok sig sent n -> n_panicked n = false ->
+    peek_two (n_pool n) = (Some first, Some second) ->
+    verify_first validate_block vc (n_state n) first second <> SV_accept ->
+    let h := p_height (n_pool n) in
+    let p1 := supplier sig n h in
+    let p2 := supplier sig n (h + 1) in
+    let n' := step validate_block apply_block vc n OProcess in
+    (b_height first = h /\ b_height second = h + 1 /\
+     p1 <> 0 /\ p2 <> 0 /\ ~ In p1 (n_stopped n) /\ ~ In p2 (n_stopped n)) /\
+    (n_store n' = n_store n /\ n_state n' = n_state n /\ n_panicked n' = false /\
+     p_height (n_pool n') = h /\ length (p_reqs (n_pool n')) = length (p_reqs (n_pool n))) /\
+    (n_stopped n' = (if p2 =? p1 then [p1] else [p2; p1]) ++ n_stopped n /\
+     forall q, In q (n_stopped n') <-> q = p1 \/ q = p2 \/ In q (n_stopped n)) /\
+    (~ In p1 (ids sig (n_pool n')) /\ ~ In p2 (ids sig (n_pool n')) /\
+     forall r, In r (p_reqs (n_pool n')) -> rq_peer r <> p1 /\ rq_peer r <> p2) /\
+    (req_at (n_pool n') h = Some (fresh_req sig) /\ req_at (n_pool n') (h + 1) = Some (fresh_req sig)) /\
+    (forall k r, req_at (n_pool n) k = Some r -> rq_peer r <> p1 -> rq_peer r <> p2 ->
+                 req_at (n_pool n') k = Some r) /\
+    (exists v q2, n_log n' = E_rejected v first second p1 q2 :: n_log n /\ v <> SV_accept /\
+                  (q2 = p2 \/ (q2 = 0 /\ p2 = p1))) /\
+    node_ok sig sent n'.
+Proof.
+  intros sig vb ab sent vc n first second H1 H2 H3 H4.
+  exact (bad_response_turn sig vb ab sent vc n first second H1 H2 H3 H4).
+Qed.
+Print Assumptions C13_bad_response_drops_peer_and_retries.
+
+(* ---- clause 6 for block responses this peer was not asked for (pushers, duplicates, far heights):
+   when the requester of the block's height already holds a block or is assigned to another peer,
+   or there is no requester and the height is more than
+   maxDiffBetweenCurrentAndReceivedBlockHeight from pool.height, the block is not taken, the
+   sender is stopped in the same step, nothing is stored or executed, and only the sender's own
+   requesters are reset. *)
+Theorem C13_unsolicited_block_stops_sender :
+  forall (sig : Type)
+         (validate_block : sstate -> block sig -> bool)
+         (apply_block : sstate -> block sig -> option (list validator * Z))
+         (vc : vcheck sig) (n : node sig) (p : peer) (b : block sig),
+    n_panicked n = false -> p <> 0 -> ~ In p (n_stopped n) ->
+    (exists r, req_at (n_pool n) (b_height b) = Some r /\ (rq_block r <> None \/ rq_peer r <> p)) \/
+    (req_at (n_pool n) (b_height b) = None /\
+     Z.abs (p_height (n_pool n) - b_height b) > bc0_max_diff_current_received_height) ->
+    let n' := step validate_block apply_block vc n (OBlock p b) in
+    n' = stop_peer (with_pool n (report (n_pool n) p)) p /\
+    n_stopped n' = p :: n_stopped n /\
+    n_store n' = n_store n /\ n_state n' = n_state n /\
+    p_height (n_pool n') = p_height (n_pool n) /\
+    p_reqs (n_pool n') = map (redo_req p) (p_reqs (n_pool n)) /\
+    (forall k r', req_at (n_pool n) k = Some r' -> rq_peer r' <> p -> req_at (n_pool n') k = Some r').
+Proof.
+  intros sig vb ab vc n p b H1 H2 H3 H4.
+  exact (unsolicited_block_stops_sender sig vb ab vc n p b H1 H2 H3 H4).
+Qed.
+Print Assumptions C13_unsolicited_block_stops_sender.
+
+(* ---- lifted over ALL operation lists: a stopped peer is out for good.  Once q is stopped, after
+   any further operations it is still stopped, whatever it sends (blocks, status) is ignored —
+   the node does not change at all — and a pick never gives it a request. *)
+Theorem C13_stopped_peer_is_ignored :
+  forall (sig : Type)
+         (validate_block : sstate -> block sig -> bool)
+         (apply_block : sstate -> block sig -> option (list validator * Z))
+         (sent : peer -> block sig -> Prop) (vc : vcheck sig)
+         (ops : list (op sig)) (n : node sig) (q : peer),
+    Forall (op_sent sig sent) ops -> node_ok sig sent n -> q <> 0 -> In q (n_stopped n) ->
+    let m := run validate_block apply_block vc ops n in
+    In q (n_stopped m) /\
+    (forall b, step validate_block apply_block vc m (OBlock q b) = m) /\
+    (forall base height, step validate_block apply_block vc m (OStatus q base height) = m) /\
+    (forall h, n_pool (step validate_block apply_block vc m (OPick h q)) = n_pool m).
+Proof.
+  intros sig vb ab sent vc ops n q Hs Hok H0 Hq m.
+  pose proof (run_stopped_mono sig vb ab vc ops n q Hq) as Hm.
+  exact (conj Hm (stopped_ignored sig vb ab sent vc m q (run_ok sig vb ab sent vc ops n Hs Hok) H0 Hm)).
+Qed.
+Print Assumptions C13_stopped_peer_is_ignored.
+
+(* ... and supplies nothing that is stored.  Along ANY operation list from a well-formed node,
+   every block the run stores (every logged E_saved that was not there before) was stored by one
+   processing turn of the list; in the node [m] just before that turn it is the block of
+   pool.height held by a requester assigned to a peer p1 that is not the empty id and NOT
+   STOPPED, with [sent p1 first]; likewise the second block (whose LastCommit becomes the seen
+   commit) and p2; neither is a peer that was stopped at the start.  (A peer stopped at any
+   point of a run: split the list there and apply this to the rest.) *)
+Theorem C13_stopped_peer_supplies_nothing :
+  forall (sig : Type)
+         (validate_block : sstate -> block sig -> bool)
+         (apply_block : sstate -> block sig -> option (list validator * Z))
+         (sent : peer -> block sig -> Prop) (vc : vcheck sig)
+         (ops : list (op sig)) (n : node sig),
+    Forall (op_sent sig sent) ops -> node_ok sig sent n ->
+    forall st f s, In (E_saved st f s) (n_log (run validate_block apply_block vc ops n)) ->
+    In (E_saved st f s) (n_log n) \/
+    exists a c, ops = a ++ OProcess :: c /\
+      let m := run validate_block apply_block vc a n in
+      let h := p_height (n_pool m) in
+      let p1 := supplier sig m h in
+      let p2 := supplier sig m (h + 1) in
+      st = n_state m /\ verify_first validate_block vc st f s = SV_accept /\
+      b_height f = h /\ b_height s = h + 1 /\
+      p1 <> 0 /\ p2 <> 0 /\ ~ In p1 (n_stopped m) /\ ~ In p2 (n_stopped m) /\
+      sent p1 f /\ sent p2 s /\
+      (forall q, In q (n_stopped n) -> p1 <> q /\ p2 <> q).
+Proof.
+  intros sig vb ab sent vc ops n Hs Hok st f s H.
+  exact (run_saved_suppliers sig vb ab sent vc ops n Hs Hok st f s H).
+Qed.
+Print Assumptions C13_stopped_peer_supplies_nothing.
+
+(* ---- the height never skips.  Along ANY operation list from a well-formed node the store grows
+   by entries of heights pool.height, pool.height+1, ... — no gap, no repetition (newest first:
+   [desc top k] = top-1, top-2, ..., top-k) — and pool.height advances by exactly the number of
+   blocks stored. *)
+Theorem C13_height_never_skips :
+  forall (sig : Type)
+         (validate_block : sstate -> block sig -> bool)
+         (apply_block : sstate -> block sig -> option (list validator * Z))
+         (sent : peer -> block sig -> Prop) (vc : vcheck sig)
+         (ops : list (op sig)) (n : node sig),
+    Forall (op_sent sig sent) ops -> node_ok sig sent n ->
+    let n' := run validate_block apply_block vc ops n in
+    exists new,
+      n_store n' = new ++ n_store n /\
+      p_height (n_pool n') = p_height (n_pool n) + Z.of_nat (length new) /\
+      map (@se_height sig) new = desc (p_height (n_pool n')) (length new).
+Proof. intros sig vb ab sent vc ops n Hs Hok. exact (run_heights sig vb ab sent vc ops n Hs Hok). Qed.
+Print Assumptions C13_height_never_skips.
+
+(* ---- clause 10: who is blamed.  [canonical_chain vb ab vc canon cst]: canon h is the block of
+   height h, the LastCommit of canon (h+1) together with canon h passes the acceptance rule in
+   the state cst h, executing canon h in cst h gives cst (h+1), and nothing but canon h passes
+   the acceptance rule in cst h (C13_canonical_block_is_unique derives the last from the sound
+   commit check of C07 and the BFT assumption).  [honest p]: p serves only canonical blocks
+   ([hsent]).  The node is in the canonical state of its pool.height ([canon_inv]).
+   Then a rejected pair is not the canonical pair, at least one of its two suppliers is not
+   honest, and of the one or two peers the turn stops at most one is honest and at least one
+   is a liar. *)
+Theorem C13_rejection_blames_a_liar :
+  forall (sig : Type)
+         (validate_block : sstate -> block sig -> bool)
+         (apply_block : sstate -> block sig -> option (list validator * Z))
+         (vc : vcheck sig) (canon : Z -> block sig) (cst : Z -> sstate) (honest : peer -> bool),
+    canonical_chain validate_block apply_block vc canon cst ->
+    forall (n : node sig) (first second : block sig),
+      node_ok sig (hsent sig canon honest) n -> canon_inv sig cst n -> n_panicked n = false ->
+      peek_two (n_pool n) = (Some first, Some second) ->
+      verify_first validate_block vc (n_state n) first second <> SV_accept ->
+      let h := p_height (n_pool n) in
+      let p1 := supplier sig n h in
+      let p2 := supplier sig n (h + 1) in
+      let n' := step validate_block apply_block vc n OProcess in
+      ~ (first = canon h /\ second = canon (h + 1)) /\
+      (honest p1 = false \/ honest p2 = false) /\
+      (exists new, n_stopped n' = new ++ n_stopped n /\ (forall q, In q new -> q = p1 \/ q = p2) /\
+                   (honests honest new <= 1)%nat /\ (1 <= liars honest new)%nat) /\
+      canon_inv sig cst n' /\ node_ok sig (hsent sig canon honest) n'.
+Proof.
+  intros sig vb ab vc canon cst honest [_ [Ha _]] n first second H1 H2 H3 H4 H5.
+  exact (rejection_blames_a_liar_turn sig vb ab vc canon cst honest Ha n first second H1 H2 H3 H4 H5).
+Qed.
+Print Assumptions C13_rejection_blames_a_liar.
+
+(* Over ALL runs in which the honest peers behave ([behaved]: an honest peer answers only an open
+   request assigned to it, with the canonical block, and does not disconnect; everybody else —
+   blocks, pushes, duplicates, status, disconnects, order — is arbitrary): of the peers stopped
+   during the run at least as many are liars as honest (each lie costs at most one honest peer
+   and the liar itself), nobody is stopped twice, the node stays in the canonical state of its
+   height and does not panic. *)
+Theorem C13_stopped_honest_at_most_stopped_liars :
+  forall (sig : Type)
+         (validate_block : sstate -> block sig -> bool)
+         (apply_block : sstate -> block sig -> option (list validator * Z))
+         (vc : vcheck sig) (canon : Z -> block sig) (cst : Z -> sstate) (honest : peer -> bool),
+    canonical_chain validate_block apply_block vc canon cst ->
+    forall (ops : list (op sig)) (n : node sig),
+      node_ok sig (hsent sig canon honest) n -> canon_inv sig cst n -> n_panicked n = false ->
+      NoDup (n_stopped n) ->
+      behaved sig validate_block apply_block vc canon honest n ops ->
+      let n' := run validate_block apply_block vc ops n in
+      exists new,
+        n_stopped n' = new ++ n_stopped n /\ (honests honest new <= liars honest new)%nat /\
+        NoDup (new ++ n_stopped n) /\
+        node_ok sig (hsent sig canon honest) n' /\ canon_inv sig cst n' /\ n_panicked n' = false.
+Proof.
+  intros sig vb ab vc canon cst honest [_ [Ha [Hb Hc]]] ops n H1 H2 H3 H4 H5.
+  exact (run_balance sig vb ab vc canon cst honest Ha Hb Hc ops n H1 H2 H3 H4 H5).
+Qed.
+Print Assumptions C13_stopped_honest_at_most_stopped_liars.
+
+(* ... hence with more honest peers than liars the honest set never becomes empty: [Hs] distinct
+   honest peers not stopped at the start, [Ls] a list containing every peer that is not honest,
+   |Ls| < |Hs|; after ANY behaved run some peer of Hs is still not stopped. *)
+Theorem C13_honest_set_survives :
+  forall (sig : Type)
+         (validate_block : sstate -> block sig -> bool)
+         (apply_block : sstate -> block sig -> option (list validator * Z))
+         (vc : vcheck sig) (canon : Z -> block sig) (cst : Z -> sstate) (honest : peer -> bool),
+    canonical_chain validate_block apply_block vc canon cst ->
+    forall (ops : list (op sig)) (n : node sig) (Hs Ls : list peer),
+      node_ok sig (hsent sig canon honest) n -> canon_inv sig cst n -> n_panicked n = false ->
+      NoDup (n_stopped n) ->
+      behaved sig validate_block apply_block vc canon honest n ops ->
+      NoDup Hs -> (forall p, In p Hs -> honest p = true /\ ~ In p (n_stopped n)) ->
+      (forall p, honest p = false -> In p Ls) ->
+      (length Ls < length Hs)%nat ->
+      exists p, In p Hs /\ ~ In p (n_stopped (run validate_block apply_block vc ops n)).
+Proof.
+  intros sig vb ab vc canon cst honest [_ [Ha [Hb Hc]]] ops n Hs Ls H1 H2 H3 H4 H5 H6 H7 H8 H9.
+  exact (honest_set_survives sig vb ab vc canon cst honest Ha Hb Hc ops n Hs Ls H1 H2 H3 H4 H5 H6 H7 H8 H9).
+Qed.
+Print Assumptions C13_honest_set_survives.
+
+(* clause 2 in the same setting: every block a behaved run stores is the canonical block of its
+   height, stored in the canonical state of that height *)
+Theorem C13_behaved_runs_store_canonical_blocks :
+  forall (sig : Type)
+         (validate_block : sstate -> block sig -> bool)
+         (apply_block : sstate -> block sig -> option (list validator * Z))
+         (vc : vcheck sig) (canon : Z -> block sig) (cst : Z -> sstate) (honest : peer -> bool),
+    canonical_chain validate_block apply_block vc canon cst ->
+    forall (ops : list (op sig)) (n : node sig),
+      node_ok sig (hsent sig canon honest) n -> canon_inv sig cst n -> n_panicked n = false ->
+      NoDup (n_stopped n) ->
+      behaved sig validate_block apply_block vc canon honest n ops ->
+      forall st f s, In (E_saved st f s) (n_log (run validate_block apply_block vc ops n)) ->
+      In (E_saved st f s) (n_log n) \/ (f = canon (b_height f) /\ st = cst (b_height f)).
+Proof.
+  intros sig vb ab vc canon cst honest [_ [Ha [Hb Hc]]] ops n H1 H2 H3 H4 H5 st f s H.
+  exact (run_saved_canonical sig vb ab vc canon cst honest Ha Hb Hc ops n H1 H2 H3 H4 H5 st f s H).
+Qed.
+Print Assumptions C13_behaved_runs_store_canonical_blocks.
+
+(* where the uniqueness premise of [canonical_chain] comes from: a sound commit check (both
+   VerifyCommit and VerifyCommitLight are: C07), well-formed validator sets along the chain, no
+   block id other than the canonical one ever collecting +2/3 of valid signatures of a height's
+   validators, and the block id binding the block *)
+Theorem C13_canonical_block_is_unique :
+  forall (sig : Type) (sv : key -> signmsg -> sig -> bool)
+         (validate_block : sstate -> block sig -> bool) (vc : vcheck sig)
+         (canon : Z -> block sig) (cst : Z -> sstate),
+    (vc = verify_commit sv \/ vc = verify_commit_light sv) ->
+    (forall h, wf_valset (st_vals (cst h))) ->
+    (forall h (c : commit sig) bid,
+        3 * good_tally sig sv (st_chain (cst h)) h (c_round c) bid (st_vals (cst h)) (c_sigs c)
+          > 2 * sum_power (st_vals (cst h)) -> bid = b_id (canon h)) ->
+    (forall h f, b_height f = h -> b_id f = b_id (canon h) -> f = canon h) ->
+    forall h f s, b_height f = h -> verify_first validate_block vc (cst h) f s = SV_accept -> f = canon h.
+Proof.
+  intros sig sv vb vc canon cst [-> | ->] H1 H2 H3.
+  - exact (canon_only_of_quorum sig sv vb _ canon cst (verify_commit_vc_sound sig sv) H1 H2 H3).
+  - exact (canon_only_of_quorum sig sv vb _ canon cst (verify_commit_light_vc_sound sig sv) H1 H2 H3).
+Qed.
+Print Assumptions C13_canonical_block_is_unique.
+
+(* ---- clause 8: progress.  The progress phase ([prog_inv ... T n]): a well-formed node in the
+   canonical state of its pool.height, not panicked; every peer the pool knows is honest,
+   reports a height >= T (and not above the recorded maximum M = maxPeerHeight) and a base <=
+   pool.height; at least one peer; no requester above M; numPending and every peer's
+   numPending are exactly the numbers of open requests they count.  Operations of the phase
+   ([penv]): requester creation, picks (any), processing turns, and answers of connected peers
+   to their open requests with the canonical block.  Measure [mu] = what is missing to have
+   fetched every block up to M and stored every block below M: 3 per requester still to be
+   made, 2 per unassigned requester, 1 per assigned requester without block, 1 per block still
+   to be stored.
+   Every operation of the phase keeps the phase invariant and changes the measure by exactly
+   -1 when it changes the pool ([eff]) and by 0 otherwise; and while pool.height < T some
+   operation of the phase is enabled that changes the pool (no deadlock: not even when all
+   peers are saturated with maxPendingRequestsPerPeer open requests). *)
+Theorem C13_progress_measure_decreases :
+  forall (sig : Type)
+         (validate_block : sstate -> block sig -> bool)
+         (apply_block : sstate -> block sig -> option (list validator * Z))
+         (vc : vcheck sig) (canon : Z -> block sig) (cst : Z -> sstate) (honest : peer -> bool),
+    canonical_chain validate_block apply_block vc canon cst ->
+    forall (T : Z) (n : node sig),
+      prog_inv sig canon cst honest T n ->
+      (forall o, penv sig canon n o ->
+         prog_inv sig canon cst honest T (step validate_block apply_block vc n o) /\
+         mu sig (n_pool (step validate_block apply_block vc n o)) = mu sig (n_pool n) - dec (eff sig n o)) /\
+      0 <= mu sig (n_pool n) /\
+      (p_height (n_pool n) < T -> exists o, penv sig canon n o /\ eff sig n o = true).
+Proof.
+  intros sig vb ab vc canon cst honest [Hh [Ha [Hb Hc]]] T n H.
+  split; [intros o Ho; exact (prog_step sig vb ab vc canon cst honest Ha Hb Hc T n o H Ho)|].
+  split; [exact (mu_nonneg sig canon cst honest T n H)|].
+  exact (no_deadlock sig canon cst honest Hh T n H).
+Qed.
+Print Assumptions C13_progress_measure_decreases.
+
+(* FAIRNESS is a property of the operation list ([fair n ops], no timers): the list does not end
+   while an operation of the phase that would change the pool is still enabled.  Any fair list
+   of operations of the phase ends with pool.height >= T: the node has stored exactly the
+   canonical blocks of all heights from its starting pool.height up to pool.height-1 >= T-1,
+   without gap (the v0 reactor needs block h+1 to verify block h, so the block at the highest
+   reported height itself is fetched but not stored).  The list can contain at most mu
+   pool-changing operations ([eff_count]), and a fair list of at most mu operations exists. *)
+Theorem C13_honest_peers_reach_tip :
+  forall (sig : Type)
+         (validate_block : sstate -> block sig -> bool)
+         (apply_block : sstate -> block sig -> option (list validator * Z))
+         (vc : vcheck sig) (canon : Z -> block sig) (cst : Z -> sstate) (honest : peer -> bool),
+    canonical_chain validate_block apply_block vc canon cst ->
+    forall (T : Z) (ops : list (op sig)) (n : node sig),
+      prog_inv sig canon cst honest T n ->
+      penv_run sig validate_block apply_block vc canon n ops ->
+      fair sig validate_block apply_block vc canon n ops ->
+      let n' := run validate_block apply_block vc ops n in
+      T <= p_height (n_pool n') /\ prog_inv sig canon cst honest T n' /\
+      exists new,
+        n_store n' = new ++ n_store n /\
+        p_height (n_pool n') = p_height (n_pool n) + Z.of_nat (length new) /\
+        map (@se_height sig) new = desc (p_height (n_pool n')) (length new) /\
+        Forall (entry_canon sig canon) new.
+Proof.
+  intros sig vb ab vc canon cst honest [Hh [Ha [Hb Hc]]] T ops n H1 H2 H3.
+  exact (honest_peers_reach_tip sig vb ab vc canon cst honest Hh Ha Hb Hc T ops n H1 H2 H3).
+Qed.
+Print Assumptions C13_honest_peers_reach_tip.
+
+Theorem C13_fair_runs_are_short_and_exist :
+  forall (sig : Type)
+         (validate_block : sstate -> block sig -> bool)
+         (apply_block : sstate -> block sig -> option (list validator * Z))
+         (vc : vcheck sig) (canon : Z -> block sig) (cst : Z -> sstate) (honest : peer -> bool),
+    canonical_chain validate_block apply_block vc canon cst ->
+    forall (T : Z) (n : node sig),
+      prog_inv sig canon cst honest T n ->
+      (forall ops, penv_run sig validate_block apply_block vc canon n ops ->
+         mu sig (n_pool (run validate_block apply_block vc ops n))
+           = mu sig (n_pool n) - eff_count sig validate_block apply_block vc n ops /\
+         0 <= eff_count sig validate_block apply_block vc n ops <= mu sig (n_pool n)) /\
+      (exists ops, penv_run sig validate_block apply_block vc canon n ops /\
+                   T <= p_height (n_pool (run validate_block apply_block vc ops n)) /\
+                   Z.of_nat (length ops) <= mu sig (n_pool n)).
+Proof.
+  intros sig vb ab vc canon cst honest [Hh [Ha [Hb Hc]]] T n H. split.
+  - intros ops Ho. exact (proj2 (progress_measure sig vb ab vc canon cst honest Ha Hb Hc T ops n H Ho)).
+  - exact (fair_run_exists sig vb ab vc canon cst honest Hh Ha Hb Hc T n H).
+Qed.
+Print Assumptions C13_fair_runs_are_short_and_exist.
+
+(* The two counter premises of the progress phase are facts of every reachable state: pool.numPending
+   = number of requesters without a block, and each peer's numPending = number of requesters
+   assigned to it that have no block yet ([cnt_inv]), are kept — together with the pool invariant —
+   by EVERY operation list (messages, picks, disconnects, processing turns including
+   rejections), and hold in the fresh node. *)
+Theorem C13_pending_counters_exact :
+  forall (sig : Type)
+         (validate_block : sstate -> block sig -> bool)
+         (apply_block : sstate -> block sig -> option (list validator * Z))
+         (sent : peer -> block sig -> Prop) (vc : vcheck sig)
+         (ops : list (op sig)) (n : node sig),
+    Forall (op_sent sig sent) ops ->
+    node_ok sig sent n -> cnt_inv sig (n_pool n) ->
+    node_ok sig sent (run validate_block apply_block vc ops n) /\
+    cnt_inv sig (n_pool (run validate_block apply_block vc ops n)).
+Proof.
+  intros sig vb ab sent vc ops n Hs H1 H2.
+  exact (nc_run sig vb ab sent vc ops n Hs (conj H1 H2)).
+Qed.
+Print Assumptions C13_pending_counters_exact.
+
+(* ---- non-vacuity ------------------------------------------------------------------------------ *)
+
+(* the fresh node is well-formed, for any [sent] *)
+Example C13_fresh_node_wellformed : forall sent, node_ok isig sent ex_n0.
+Proof. intro sent. unfold node_ok, pool_ok, ids_ok. cbn. repeat split; constructor. Qed.
+Example C13_fresh_node_counters_exact : cnt_inv isig (n_pool ex_n0).
+Proof. split; [reflexivity | constructor]. Qed.
+
+(* A rejected pair on the chain of the example above (real VerifyCommit over the ideal signature
+   check): peers 1, 2, 3 connect; block 5 comes from peer 1, a block 6 with an empty LastCommit
+   from peer 2.  The premises of C13_bad_response_drops_peer_and_retries hold in the node reached,
+   and the turn stops exactly 2 and 1, stores nothing, re-opens both requests, keeps peer 3. *)
+Definition ex_b6bad : block isig :=
+  {| b_height := 6; b_id := 67;
+     b_last_commit := {| c_height := 5; c_round := 0; c_bid := 55; c_sigs := [] |}; b_tag := 1 |}.
+Definition ex_ops_bad : list (op isig) :=
+  [ OStatus 1 5 6; OStatus 2 5 6; OStatus 3 5 6; OMakeRequester; OMakeRequester; OPick 5 1; OPick 6 2;
+    OBlock 1 ex_b5; OBlock 2 ex_b6bad ].
+
+Example C13_bad_response_nonvacuous :
+  let m := run ex_vb ex_ab (verify_commit ideal_verify) ex_ops_bad ex_n0 in
+  let m' := step ex_vb ex_ab (verify_commit ideal_verify) m OProcess in
+  node_ok isig (fun _ _ => True) m /\ n_panicked m = false /\
+  peek_two (n_pool m) = (Some ex_b5, Some ex_b6bad) /\
+  verify_first ex_vb (verify_commit ideal_verify) (n_state m) ex_b5 ex_b6bad <> SV_accept /\
+  supplier isig m 5 = 1 /\ supplier isig m 6 = 2 /\
+  n_stopped m' = [2; 1] /\ n_store m' = [] /\ p_height (n_pool m') = 5 /\
+  p_reqs (n_pool m') = [fresh_req isig; fresh_req isig] /\ map bp_id (p_peers (n_pool m')) = [3].
+Proof.
+  cbv zeta. split.
+  - apply run_ok; [|apply C13_fresh_node_wellformed].
+    apply Forall_forall. intros o _. destruct o; exact I.
+  - split; [vm_compute; reflexivity|]. split; [vm_compute; reflexivity|].
+    split; [vm_compute; discriminate|]. repeat split; vm_compute; reflexivity.
+Qed.
+
+(* A toy canonical chain for the premises of the liar / progress theorems: block h has id h and a
+   LastCommit naming block h-1; the commit check compares the commit's block id and height with
+   the block, ValidateBlock checks every field; no validators (the commit check proper is C07's
+   business and is exercised in the example above). *)
+Definition tc_commit (h : Z) : commit isig := {| c_height := h; c_round := 0; c_bid := h; c_sigs := [] |}.
+Definition tc_canon (h : Z) : block isig :=
+  {| b_height := h; b_id := h; b_last_commit := tc_commit (h - 1); b_tag := 0 |}.
+Definition tc_st (h : Z) : sstate :=
+  {| st_chain := 1; st_height := h - 1; st_vals := []; st_last_vals := []; st_tag := 0 |}.
+Definition tc_vc : vcheck isig :=
+  fun _ _ bid h c => if (c_bid c =? bid) && (c_height c =? h) then R_ok else R_err_blockid.
+Definition tc_vb (st : sstate) (b : block isig) : bool :=
+  (b_height b =? st_height st + 1) && (b_id b =? b_height b) && (b_tag b =? 0)
+  && (c_height (b_last_commit b) =? b_height b - 1) && (c_round (b_last_commit b) =? 0)
+  && (c_bid (b_last_commit b) =? b_height b - 1)
+  && match c_sigs (b_last_commit b) with [] => true | _ => false end.
+Definition tc_ab (st : sstate) (b : block isig) : option (list validator * Z) := Some ([], 0).
+
+Example C13_toy_chain_is_canonical : canonical_chain tc_vb tc_ab tc_vc tc_canon tc_st.
+Proof.
+  split; [reflexivity|]. split; [|split].
+  - intro h. unfold verify_first, tc_vc, tc_vb, tc_canon, tc_st, tc_commit.
+    cbn [b_id b_height b_last_commit b_tag c_bid c_height c_round c_sigs st_vals st_chain st_height].
+    replace (h + 1 - 1) with h by lia. replace (h - 1 + 1) with h by lia.
+    rewrite !Z.eqb_refl. reflexivity.
+  - intro h. exists ([], 0). split; [reflexivity|].
+    unfold next_state, tc_st, tc_canon. cbn. f_equal. lia.
+  - intros h f s Hf Hv. apply verify_first_accept in Hv as [_ Hv].
+    destruct f as [fh fid [ch cr cb cs] ft]. unfold tc_vb, tc_st in Hv.
+    cbn [b_id b_height b_last_commit b_tag c_bid c_height c_round c_sigs st_height] in *.
+    repeat (apply andb_true_iff in Hv as [Hv ?]).
+    destruct cs; [|discriminate].
+    assert (fid = h) by lia. assert (ft = 0) by lia. assert (ch = h - 1) by lia.
+    assert (cr = 0) by lia. assert (cb = h - 1) by lia. subst. reflexivity.
+Qed.
+
+(* a node of the progress phase: pool at height 5 in the canonical state, two honest peers
+   reporting height 8, an earlier liar (9) stopped; target T = 8 *)
+Definition tc_n1 : node isig :=
+  {| n_state := tc_st 5; n_store := [];
+     n_pool := {| p_height := 5; p_reqs := [];
+                  p_peers := [ {| bp_id := 1; bp_base := 1; bp_height := 8; bp_pending := 0 |};
+                               {| bp_id := 2; bp_base := 1; bp_height := 8; bp_pending := 0 |} ];
+                  p_max_peer_height := 8; p_num_pending := 0; p_errors := [] |};
+     n_stopped := [9]; n_log := []; n_panicked := false |}.
+Definition tc_ops : list (op isig) :=
+  [ OMakeRequester; OMakeRequester; OMakeRequester; OMakeRequester;
+    OPick 5 1; OPick 6 2; OPick 7 1; OPick 8 2;
+    OBlock 1 (tc_canon 5); OBlock 2 (tc_canon 6); OBlock 1 (tc_canon 7); OBlock 2 (tc_canon 8);
+    OProcess; OProcess; OProcess ].
+
+Example C13_progress_nonvacuous :
+  prog_inv isig tc_canon tc_st (fun _ => true) 8 tc_n1 /\
+  mu isig (n_pool tc_n1) = 15 /\
+  let n' := run tc_vb tc_ab tc_vc tc_ops tc_n1 in
+  p_height (n_pool n') = 8 /\ map (@se_height isig) (n_store n') = [7; 6; 5] /\
+  map (@se_id isig) (n_store n') = [7; 6; 5] /\ mu isig (n_pool n') = 0 /\ n_panicked n' = false.
+Proof.
+  split.
+  - unfold prog_inv. split; [|reflexivity]. unfold pinv.
+    assert (Hni : forall i : Z, i <> 9 -> ~ In i [9]) by (intros i Hi [E|[]]; congruence).
+    split; [|split; [reflexivity|split; [intros; reflexivity|split; [discriminate|split]]]].
+    + unfold pool_ok, ids_ok, ids. cbn [tc_n1 n_pool p_height p_reqs p_peers map bp_id aligned].
+      split; [exact I|]. split; [constructor|].
+      repeat constructor; try discriminate; apply Hni; discriminate.
+    + cbn [tc_n1 n_pool p_peers]. repeat constructor; unfold peer_inv; cbn; lia.
+    + cbn. lia.
+  - split; [vm_compute; reflexivity|]. cbv zeta. repeat split; vm_compute; reflexivity.
+Qed.
+
+(* a behaved run with a liar: peers 1 and 3 honest, 2 serves a non-canonical block 6.  The
+   premises of C13_honest_set_survives hold (Hs = [1; 3], Ls = [2]); the rejection stops 2 and 1,
+   3 survives. *)
+Definition tc_honest (p : peer) : bool := negb (p =? 2).
+Definition tc_n0 : node isig :=
+  {| n_state := tc_st 5; n_store := []; n_pool := new_pool isig 5; n_stopped := []; n_log := [];
+     n_panicked := false |}.
+Definition tc_bad6 : block isig := {| b_height := 6; b_id := 66; b_last_commit := tc_commit 4; b_tag := 0 |}.
+Definition tc_ops_liar : list (op isig) :=
+  [ OStatus 1 1 8; OStatus 2 1 8; OStatus 3 1 8; OMakeRequester; OMakeRequester; OPick 5 1; OPick 6 2;
+    OBlock 1 (tc_canon 5); OBlock 2 tc_bad6; OProcess ].
+
+Example C13_liar_nonvacuous :
+  node_ok isig (hsent isig tc_canon tc_honest) tc_n0 /\ canon_inv isig tc_st tc_n0 /\
+  behaved isig tc_vb tc_ab tc_vc tc_canon tc_honest tc_n0 tc_ops_liar /\
+  (forall p, In p [1; 3] -> tc_honest p = true /\ ~ In p (n_stopped tc_n0)) /\
+  (forall p, tc_honest p = false -> In p [2]) /\
+  n_stopped (run tc_vb tc_ab tc_vc tc_ops_liar tc_n0) = [2; 1] /\
+  n_store (run tc_vb tc_ab tc_vc tc_ops_liar tc_n0) = [].
+Proof.
+  split; [unfold node_ok, pool_ok, ids_ok; cbn; repeat split; constructor|].
+  split; [reflexivity|]. split.
+  - unfold tc_ops_liar. cbn [behaved op_behaved]. repeat split; try exact I.
+    + eexists. split; [vm_compute; reflexivity|]. split; reflexivity.
+    + discriminate H.
+    + discriminate H.
+  - split; [intros p [E|[E|[]]]; subst p; (split; [reflexivity | intros []])|].
+    split; [|split; vm_compute; reflexivity].
+    intros p H. unfold tc_honest in H. destruct (Z.eq_dec p 2) as [E|E]; [left; symmetry; exact E|].
+    apply Z.eqb_neq in E. rewrite E in H. discriminate.
 Qed.
